@@ -402,7 +402,7 @@ func requests(thorough bool) []request {
 	// --- bodies
 	bodies := []struct{ f, b string }{
 		{"empty", ""}, {"ascii", "hello"}, {"json", `{"a":[1,2,{"b":"c"}],"d":"\"q\""}`}, {"newlines", "l1\nl2\r\n\tl3\n"},
-		{"unicode", "café ☃ 𝄞"}, {"invalid-utf8", "A\xff\xfeB\x80"}, {"nul", "a\x00b"}, {"html", "<b>&amp;</b>"},
+		{"unicode", "café ☃ 𝄞"}, {"not-utf", "A\xff\xfeB\x80"}, {"nul", "a\x00b"}, {"html", "<b>&amp;</b>"},
 		{"large", strings.Repeat("0123456789", 2000)},
 	}
 
@@ -701,6 +701,8 @@ func cellOf(q request, d difference, transports string) string {
 	return cell
 }
 
+var confirmedCells = map[string]bool{}
+
 func judge(r *report.R, q request) {
 	cold := serve("inproc-cold", q)
 	warm := serve("inproc-warm", q)
@@ -731,23 +733,44 @@ func judge(r *report.R, q request) {
 	inP, dp := best(pipe)
 
 	// a child answer that a second child does not repeat says nothing about
-	// the code (a process that could not start, for instance): no verdict
-	if len(df) > 0 {
-		if again := serve("file", q); len(compare(file, again)) > 0 {
-			r.Add("unstable_child_answers", 1)
-			r.Capped(fmt.Sprintf("%s %s: two file-transport children answered differently; not judged", q.Method, q.Target))
+	// the code (a process that could not start, for instance): no verdict.
+	// The second child is spared when every difference falls in a cell this
+	// worker has already seen repeated.
+	stable := func(mode string, first response, diffs []difference) bool {
+		fresh := false
 
-			df = nil
+		for _, d := range diffs {
+			if !confirmedCells[cellOf(q, d, "file+pipe")] {
+				fresh = true
+			}
 		}
+
+		if !fresh {
+			return true
+		}
+
+		r.Add("child_processes", 1)
+
+		if again := serve(mode, q); len(compare(first, again)) > 0 {
+			r.Add("unstable_child_answers", 1)
+			r.Capped(fmt.Sprintf("%s %s: two %s-transport children answered differently; not judged", q.Method, q.Target, mode))
+
+			return false
+		}
+
+		for _, d := range diffs {
+			confirmedCells[cellOf(q, d, "file+pipe")] = true
+		}
+
+		return true
 	}
 
-	if len(dp) > 0 {
-		if again := serve("pipe", q); len(compare(pipe, again)) > 0 {
-			r.Add("unstable_child_answers", 1)
-			r.Capped(fmt.Sprintf("%s %s: two pipe-transport children answered differently; not judged", q.Method, q.Target))
+	if len(df) > 0 && !stable("file", file, df) {
+		df = nil
+	}
 
-			dp = nil
-		}
+	if len(dp) > 0 && !stable("pipe", pipe, dp) {
+		dp = nil
 	}
 
 	type hit struct {
